@@ -376,6 +376,16 @@ class DemoStorage(ConflictResolvingStorage):
         # more. Save it now so we can forget it later. :)
         self._stored_oids.add(oid)
 
+        # The same check as store(): the serial must name the current
+        # revision of base + changes (blobs have no conflict resolution).
+        try:
+            old = load_current(self, oid)[1]
+        except ZODB.POSException.POSKeyError:
+            old = oldserial
+        if old != oldserial:
+            raise ZODB.POSException.ConflictError(
+                oid=oid, serials=(old, oldserial), data=data)
+
         try:
             self.changes.storeBlob(
                 oid, oldserial, data, blobfilename, '', transaction)
